@@ -198,3 +198,15 @@ def c15(ctx, t0):
     return finish(ctx, 'fault_enumeration', res, COMMON_ASSUME + [
         'faults are single syscall failures injected by strace at the syscall boundary (the syscall is not executed); multi-fault sequences are not explored',
         'errno set per syscall: ENOSPC/EIO/EACCES/EMFILE as applicable'], floors, t0)
+
+
+@plan('C06')
+def c06(ctx, t0):
+    res = []
+    if want(ctx, 'authz'):
+        res.append(ovl_stage(ctx, 'authz', 'TestVerifC06', T(ctx, 600, 3600)))
+    floors = {'cells': (counters(res, 'cells'), 1500), 'denied_cells': (counters(res, 'denied_cells'), 800), 'allowed_cells': (counters(res, 'allowed_cells'), 100),
+              'sessions_issued': (counters(res, 'sessions_issued'), 10), 'walk_steps': (counters(res, 'walk_steps'), 3)}
+    return finish(ctx, 'exploration', res, COMMON_ASSUME + [
+        'reference authorisation table + sequential store model in go/ovl/c06_test.go; expired/future tokens are minted with the test-owned factory (same handlers as newWebHandler), a subset runs through newWebHandler itself',
+        'bodies the JSON decoder accepts although they are unusual (extra field, trailing bytes, upper-case keys, 1 MiB padding) are judged like the valid body: if accepted, the authorisation rules apply'], floors, t0)
